@@ -3,7 +3,7 @@ import json, os
 from vlib import core
 
 THEOREMS = ["Props.C12." + t for t in [
-    "marker_cfg_facts", "first_content_kept", "first_content_kept_history", "patches_only_appended", "dup_dropped", "conflict_renamed", "siblings_are_family", "sib_injective", "patch_goes_to_last", "unnamed_first_is_error", "feed_error_iff", "feed_never_panics", "nothing_lost", "names_unique_partial", "names_unique_false", "scan_lossless", "patches_in_order", "markers_removed", "text_preserved", "replacer_order_irrelevant"]]
+    "marker_cfg_facts", "first_content_kept", "first_content_kept_history", "patches_only_appended", "dup_dropped", "conflict_renamed", "siblings_are_family", "sib_injective", "patch_goes_to_last", "unnamed_first_is_error", "feed_error_iff", "feed_never_panics_or_hangs", "nothing_lost", "names_unique", "old_witness_repaired", "scan_lossless", "patches_in_order", "markers_removed", "text_preserved", "replacer_order_irrelevant"]]
 
 PARTIAL = [dict(theorem="Props.C12.names_unique_partial",
                 hypothesis="noRenameShaped (histNames calls) (histLen calls) = true  -- no submitted name equals <base>_<k><ext> of a submitted name, 1 <= k <= number of items",
